@@ -11,6 +11,7 @@ Anything outside the supported subset raises Unsupported -- the calling check tu
 silent pass.
 """
 import copy
+import weakref
 from fractions import Fraction
 from math import ceil, floor
 
@@ -82,6 +83,15 @@ class Vec:
         self.items = items if items is not None else []
         self.elem = elem
 
+    def __deepcopy__(self, memo):
+        v = Vec(None, self.elem)
+        memo[id(self)] = v
+        v.items = copy.deepcopy(self.items, memo)
+        for k_, x in self.__dict__.items():
+            if k_ not in ("items", "elem", "_track"):
+                v.__dict__[k_] = copy.deepcopy(x, memo)
+        return v
+
     def __repr__(self):
         return "Vec%r" % (self.items,)
 
@@ -149,10 +159,19 @@ class MapRef:
 
 
 class Iter:
-    """std::vector iterator: (vector, index)."""
+    """std::vector / std::list iterator: (sequence, index).  Every iterator registers itself (weakly) with its sequence, so that erasing
+    a node of a std::list can keep the OTHER iterators on their elements, as the node-based container does."""
     def __init__(self, v, i):
         self.v = v
         self.i = i
+        if isinstance(v, Vec):
+            t = v.__dict__.get("_track")
+            if t is None:
+                t = v.__dict__["_track"] = weakref.WeakSet()
+            t.add(self)
+
+    def __deepcopy__(self, memo):
+        return Iter(copy.deepcopy(self.v, memo), self.i)
 
     def __repr__(self):
         return "Iter(%d/%d)" % (self.i, len(self.v.items))
@@ -1532,6 +1551,11 @@ class Interp:
                     lo = a[0].i
                     hi = a[1].i if len(a) > 1 else lo + 1
                     del recv.items[lo:hi]
+                    if cname.startswith("std::list<") or cname.startswith("std::__cxx11::list<"):
+                        # node-based: iterators to the other elements (and end()) stay on their elements
+                        for it_ in list(recv.__dict__.get("_track") or ()):
+                            if it_.i >= hi:
+                                it_.i -= (hi - lo)
                     return Iter(recv, lo)
             if meth == "insert" and len(args) == 3:
                 a = [self.ev(x, env) for x in args]
@@ -1609,9 +1633,29 @@ class Interp:
                     except TypeError:
                         recv._snap = Vec(sorted(recv.items, key=repr))
                 return Iter(recv._snap, 0 if meth in ("begin", "cbegin") else len(recv._snap.items))
+            if meth in ("rbegin", "crbegin", "rend", "crend"):
+                try:
+                    rs_ = sorted(recv.items, reverse=True)
+                except TypeError:
+                    rs_ = sorted(recv.items, key=repr, reverse=True)
+                if getattr(recv, "_rsnap", None) is None or recv._rsnap.items != rs_:
+                    recv._rsnap = Vec(rs_)          # read-only reverse view (shared by rbegin / rend so that they compare)
+                return Iter(recv._rsnap, 0 if meth in ("rbegin", "crbegin") else len(rs_))
             if meth == "clear":
                 recv.items.clear()
                 return None
+            if meth == "insert" and len(args) == 2:
+                a0, a1 = self.ev(args[0], env), self.ev(args[1], env)
+                if isinstance(a0, Iter) and isinstance(a1, Iter) and a0.v is a1.v:
+                    for x in a0.v.items[a0.i:a1.i]:          # range insert
+                        if isinstance(x, Obj):
+                            if not any(e is x for e in recv.items):
+                                recv.items.add(x)
+                        else:
+                            recv.items.add(x)
+                    recv._snap = None
+                    return None
+                raise Unsupported("std::set::insert(hint, value)")
             if meth in ("count", "insert") and args:
                 v = self.ev(args[0], env)
                 key_t = _first_targ(cname[:cname.rfind("::")]) if "<" in cname else ""
@@ -1827,6 +1871,13 @@ class Interp:
             return False
         if nm in ("move", "forward"):
             return self.ev(args[0], env)
+        if nm in ("next", "prev") and args:
+            it0 = self.ev(args[0], env)
+            k_ = 1
+            if len(args) > 1 and args[1].get("k") != "CXXDefaultArgExpr":
+                k_ = self.ev(args[1], env)
+            if isinstance(it0, Iter) and isinstance(k_, int):
+                return Iter(it0.v, it0.i + (k_ if nm == "next" else -k_))
         if nm == "bind" and args:
             bound = []
             for a in args[1:]:
